@@ -64,8 +64,11 @@ func init() {
 	// fit: the exported clearance fit on its own (error paths: malformed ID, negative clearance); args: id, "1" if clearance < 0
 	op("fit", func(a []string) string {
 		c := 1.5
-		if a[1] == "1" {
+		switch a[1] {
+		case "1":
 			c = -1.5
+		case "2":
+			c = 0
 		}
 		return withTimeout(20*time.Second, func() string {
 			h, v, err := transform.FitClearanceAroundExtendedSpatialID(a[0], c)
@@ -88,8 +91,11 @@ func init() {
 				id = zoomFieldOut([]string{id})[0]
 			}
 			neg := "0"
-			if rng.Intn(6) == 0 {
+			switch rng.Intn(6) {
+			case 0:
 				neg = "1"
+			case 1, 2: // clearance exactly 0: the layer counts are 0, the ID is still checked
+				neg = "2"
 			}
 			do("fit", id, neg)
 		}
